@@ -40,7 +40,7 @@ pub fn world() -> World {
         ],
         rule: "one run = one terminal size, personality and history of ops (Frame, NoFrame, Clear, Recreate with optional resize and garbage, garbage pre-fill) or one scripted run_render session; after every frame whose commands are fully delivered the displayed screen is compared cell for cell with the drawn surface and with a from-scratch render of the same surface on a blank terminal; non-trivial = at least two frames or a clear/recreate/drop/resize happened; distinct = distinct hash of (op kinds, cell kinds drawn, delivery decisions)",
         runs: |_, tier| match tier {
-            Tier::Quick => 600_000,
+            Tier::Quick => 1_500_000,
             Tier::Thorough => 30_000_000,
         },
         features: &["wide-char", "image", "decorated-blank", "sentinel-face", "image-overlap", "shadow-draw", "drop-with-image", "bare-recreate"],
@@ -558,14 +558,38 @@ fn make_glyph(rows: usize, cols: usize) -> Glyph {
 /// surface snapshot: what the application drew for this frame
 pub(crate) type Snapshot = SurfaceOwned<Cell>;
 
-fn draw_frame(src: &mut Src, pools: &Pools, size: TerminalSize, surf: &mut dyn FnMut(Position, Cell)) -> u64 {
+fn draw_frame(src: &mut Src, pools: &Pools, size: TerminalSize, prev: Option<&Snapshot>, surf: &mut dyn FnMut(Position, Cell)) -> u64 {
     let h = size.cells.height;
     let w = size.cells.width;
     let mut sig = 0u64;
     if h == 0 || w == 0 {
         return sig;
     }
-    let n = src.size((h * w) as u32 + 2);
+    // (one value more than the largest cell count: "the application draws what it drew last
+    // time" - the same view again after a clear(), a dropped frame or an event that changed
+    // nothing; added last so that older tapes read as before)
+    let n = src.size((h * w) as u32 + 3);
+    // (runs with overlapping pictures - one in thirty-two while the findings about them are open -
+    // repeat a frame much more often: what is kept under or inside another picture is their subject)
+    if n == (h * w) as u32 + 3 || (pools.overlap && prev.is_some() && src.chance(1, 3)) {
+        src.probe("same-frame-drawn-again");
+        if let Some(prev) = prev {
+            if prev.height() == h && prev.width() == w {
+                for r in 0..h {
+                    for c in 0..w {
+                        let pos = Position::new(r, c);
+                        let cell = prev.get(pos).unwrap().clone();
+                        // (pictures only where this generator draws them at all: the window's
+                        // pixel size is known and the run uses pictures)
+                        if matches!(cell.kind(), CellKind::Char(_)) || (pools.images_on && !size.pixels_per_cell().is_empty()) {
+                            surf(pos, cell);
+                        }
+                    }
+                }
+            }
+        }
+        return 0x5AFE;
+    }
     let ppc = size.pixels_per_cell();
     let mut occupied: Vec<(Position, Size)> = Vec::new();
     for _ in 0..n {
@@ -609,6 +633,18 @@ fn draw_frame(src: &mut Src, pools: &Pools, size: TerminalSize, surf: &mut dyn F
                         occupied.push((pos, area));
                         surf(pos, Cell::new_image(img).with_face(face));
                         sig = sig.wrapping_mul(31).wrapping_add(5);
+                        if pools.overlap && area.height * area.width > 1 && src.chance(1, 2) {
+                            // a second picture anchored inside the area of this one (random
+                            // positions meet that way too seldom)
+                            let inner = Position::new(pos.row + src.draw(area.height as u32) as usize, pos.col + src.draw(area.width as u32) as usize);
+                            if inner != pos && inner.row < h && inner.col < w {
+                                let img = pools.images[src.draw(pools.images.len() as u32) as usize].clone();
+                                occupied.push((inner, img.size_cells(ppc)));
+                                surf(inner, Cell::new_image(img).with_face(face));
+                                src.probe("picture-anchored-inside-another");
+                                sig = sig.wrapping_mul(31).wrapping_add(7);
+                            }
+                        }
                     }
                 }
             }
@@ -772,6 +808,29 @@ pub(crate) fn check_screen(screen: &Screen, snapshot: &Snapshot, size: TerminalS
     renderer.frame(&mut term).map_err(|e| Violation::new(P, "C01.error", "scratch-frame", format!("{e:?}")))?;
     term.deliver_all();
     let scratch = shared.borrow().screen.display();
+    if screen.layered {
+        // the placements themselves (which picture, where, how large), whatever lies under or
+        // over them: where two pictures overlap the per-cell view only says "several", so a
+        // picture missing under another one would not show in it
+        let list = |s: &Screen| {
+            let mut l: Vec<(u64, usize, usize, usize, usize)> =
+                s.placements.iter().filter(|p| p.at.row < s.h && p.at.col < s.w).map(|p| (p.content, p.at.row, p.at.col, p.size.height, p.size.width)).collect();
+            l.sort();
+            l
+        };
+        let (have, want) = (list(screen), list(&shared.borrow().screen));
+        if have != want {
+            return Err(Violation::new(
+                P,
+                "C01.placements",
+                features.to_string(),
+                format!(
+                    "after {context}: the terminal holds the image placements {:?} (content, row, col, height, width) but repainting the same surface from scratch on a blank terminal gives {:?}",
+                    have, want
+                ),
+            ));
+        }
+    }
     for (idx, (got, want)) in shown.iter().zip(scratch.iter()).enumerate() {
         if got != want {
             return Err(Violation::new(
@@ -903,7 +962,7 @@ fn gen_pools(ctx: &Ctx, src: &mut Src, size: TerminalSize) -> Pools {
         glyphs,
         chars_wide: !ctx.avoids("wide-char") && src.chance(2, 3),
         images_on: !ctx.avoids("image") && src.chance(1, 2),
-        overlap: !ctx.avoids("image-overlap") && src.chance(1, 4),
+        overlap: !ctx.avoids("image-overlap") && src.chance(1, 2),
         shadow_draw: !ctx.avoids("shadow-draw") && src.chance(1, 2),
         decorated: !ctx.avoids("decorated-blank") && src.chance(1, 2),
         sentinel: !ctx.avoids("sentinel-face") && src.chance(1, 8),
@@ -931,16 +990,46 @@ fn run(ctx: &Ctx, src: &mut Src) -> WorldResult {
     let mut frames = 0;
     let mut context = if prefill { "first frame of new(clear=true) over a used screen".to_string() } else { "first frame".to_string() };
     let mut special = false;
+    let mut prev_snap: Option<Snapshot> = None;
+    let mut deferred: Option<Violation> = None;
+    // in histories with overlapping pictures a frame is often followed by clear() and the same
+    // frame again (what an application does after it dropped frames)
+    let mut forced: VecDeque<u32> = VecDeque::new();
+    let mut repeat_next = false;
     for _ in 0..ops {
-        let op = src.draw(8);
+        let op = match forced.pop_front() {
+            Some(op) => op,
+            None => src.draw(8),
+        };
         match op {
             0..=4 => {
                 // Frame
                 let mut surf = renderer.surface();
-                let sig = draw_frame(src, &pools, size, &mut |pos, cell| {
-                    surf.set(pos, cell);
-                });
+                let sig = if repeat_next && prev_snap.is_some() {
+                    let prev = prev_snap.as_ref().unwrap();
+                    if prev.height() == surf.height() && prev.width() == surf.width() {
+                        for r in 0..prev.height() {
+                            for c in 0..prev.width() {
+                                let pos = Position::new(r, c);
+                                surf.set(pos, prev.get(pos).unwrap().clone());
+                            }
+                        }
+                    }
+                    src.probe("same-frame-drawn-again");
+                    0x5AFE
+                } else {
+                    draw_frame(src, &pools, size, prev_snap.as_ref(), &mut |pos, cell| {
+                        surf.set(pos, cell);
+                    })
+                };
+                repeat_next = false;
                 let snap = snapshot_of(&surf);
+                prev_snap = Some(snapshot_of(&surf));
+                if pools.overlap && used.overlap && forced.is_empty() && src.chance(1, 3) {
+                    forced.push_back(6);
+                    forced.push_back(0);
+                    repeat_next = true;
+                }
                 used.scan(&snap, size.pixels_per_cell());
                 src.sig(0xF0 ^ sig);
                 src.log(|| format!("frame: {}", render_ascii(&snap)));
@@ -948,13 +1037,28 @@ fn run(ctx: &Ctx, src: &mut Src) -> WorldResult {
                 src.log(|| strip_ansi(format!("  commands: {:?}", shared.borrow().current)));
                 term.deliver_all();
                 frames += 1;
-                check_screen(&shared.borrow().screen, &snap, size, &context, &used.features())?;
+                let judged = check_screen(&shared.borrow().screen, &snap, size, &context, &used.features());
+                match judged {
+                    Ok(()) => {}
+                    // the text layer under overlapping pictures on a layered terminal is the
+                    // subject of an open finding and goes wrong early in such a history: the
+                    // violation is kept and reported at the end, and the history goes on being
+                    // judged for the one thing that finding does not touch - which pictures the
+                    // terminal holds - so that the finding does not hide a lost or left-over picture
+                    Err(v) if layered && used.overlap && (v.kind == "C01.vs-scratch" || (deferred.is_some() && v.kind != "C01.placements")) => {
+                        if deferred.is_none() {
+                            src.probe("overlap-history-judged-past-the-text-layer-finding");
+                            deferred = Some(v);
+                        }
+                    }
+                    Err(v) => return Err(v),
+                }
                 context = "a frame following an ordinary frame".to_string();
             }
             5 => {
                 // NoFrame: application draws, frame is skipped, surface reset
                 let mut surf = renderer.surface();
-                draw_frame(src, &pools, size, &mut |pos, cell| {
+                draw_frame(src, &pools, size, prev_snap.as_ref(), &mut |pos, cell| {
                     surf.set(pos, cell);
                 });
                 renderer.surface().clear();
@@ -1015,6 +1119,9 @@ fn run(ctx: &Ctx, src: &mut Src) -> WorldResult {
     }
     if used.image {
         src.probe("image-or-glyph-drawn");
+    }
+    if let Some(v) = deferred {
+        return Err(v);
     }
     Ok(())
 }
@@ -1088,6 +1195,7 @@ fn run_session(ctx: &Ctx, src: &mut Src) -> WorldResult {
     let live = Rc::new(RefCell::new(live));
     let mut dropped_seen = false;
     let mut size_now = size0;
+    let prev_drawn_cell: RefCell<Option<Snapshot>> = RefCell::new(None);
     let mut pools_cache: Option<(TerminalSize, Pools)> = None;
     let result: Result<u32, Error> = std::panic::catch_unwind(std::panic::AssertUnwindSafe(|| {
         let live = live.clone();
@@ -1118,11 +1226,13 @@ fn run_session(ctx: &Ctx, src: &mut Src) -> WorldResult {
             if shared2.borrow().pending.len() > 32 {
                 dropped_seen = true;
             }
-            let sig = draw_frame(&mut src, pools, size, &mut |pos, cell| {
+            let prev_drawn = prev_drawn_cell.borrow_mut().take();
+            let sig = draw_frame(&mut src, pools, size, prev_drawn.as_ref(), &mut |pos, cell| {
                 if pos.row < surf.height() && pos.col < surf.width() {
                     surf.set(pos, cell);
                 }
             });
+            *prev_drawn_cell.borrow_mut() = Some(snapshot_of(&surf));
             src.sig(0xE0 ^ sig);
             let action = match src.draw(8) {
                 0 => TerminalAction::WaitNoFrame,
